@@ -147,7 +147,36 @@ func (c *ctx) sortOf(t types.Type) string {
 	return s
 }
 
+func isTimeType(t types.Type) bool {
+	n, ok := t.(*types.Named)
+	return ok && n.Obj().Pkg() != nil && n.Obj().Pkg().Path() == "time" && n.Obj().Name() == "Time"
+}
+
+const zeroTimeNs = "62135596800000000000" // absolute value of the zero Time in ns before the Unix epoch
+
+func (c *ctx) timeDT() (*datatype, *dtCtor) {
+	if dt, ok := c.d.dtByName["Time"]; ok {
+		return dt, dt.ctors[0]
+	}
+	dt := &datatype{name: "Time"}
+	dt.ctors = []*dtCtor{{name: "mk-time", fields: []dtField{{"t-ns", "Int"}, {"t-utc", "Bool"}}}}
+	c.d.datatypes = append(c.d.datatypes, dt)
+	c.d.dtByName["Time"] = dt
+	return dt, dt.ctors[0]
+}
+
+func (c *ctx) mkTime(ns, utc *T) *T {
+	dt, ct := c.timeDT()
+	return mkCtor(dt, ct, ns, utc)
+}
+func (c *ctx) timeNs(t *T) *T  { _, ct := c.timeDT(); return mkSel(ct, 0, t) }
+func (c *ctx) timeUTC(t *T) *T { _, ct := c.timeDT(); return mkSel(ct, 1, t) }
+
 func (c *ctx) sortOf1(t types.Type) string {
+	if isTimeType(t) {
+		c.timeDT()
+		return "Time"
+	}
 	if w, _, ok := intInfo(t); ok {
 		return c.bvOrInt(w)
 	}
@@ -353,6 +382,9 @@ func (c *ctx) floatConst(f float64, w int) *T {
 
 // zero value of a Go type
 func (c *ctx) zero(t types.Type) *T {
+	if isTimeType(t) {
+		return c.mkTime(app("-", "Int", atom(zeroTimeNs, "Int")), tTrue)
+	}
 	if w, _, ok := intInfo(t); ok {
 		return c.intConst(0, w)
 	}
